@@ -57,6 +57,25 @@ SelectCheck(e, ln) ==
                                       want |-> Answer(e.t, e.pred, e.proj)])
   ELSE <<>>
 
+(* C06, plan level (spec/RangeDerivation): the interval the index range scan walks must contain every row *)
+(* the predicate selects, and when nothing re-checks the predicate above the scan it must contain no other. *)
+(* Decided on the rows of the table and on every variant of them (and of an all-zero row) whose indexed     *)
+(* column takes each rank, so it does not depend on the data happening to expose the difference.            *)
+Ranks == 0..5
+ProbeRows(t, c) ==
+  LET rs == tables[t].rows
+      base == Range(rs) \cup {[i \in 1..Len(tables[t].cols) |-> 0]} IN
+  base \cup {[r EXCEPT ![c + 1] = k] : r \in base, k \in Ranks}
+RangePlanCheck(e, ln) ==
+  IF ~Has(e, "rs") \/ e.res # "ok" \/ ~HasTable(e.t) THEN <<>>
+  ELSE LET c == e.rs.c
+           inIv(r) == InRange(r[c + 1], e.rs.lo, e.rs.hi)
+           lost == {r \in ProbeRows(e.t, c) : Holds(e.pred, r) /\ ~inIv(r)}
+           extra == {r \in ProbeRows(e.t, c) : ~Holds(e.pred, r) /\ inIv(r)} IN
+       IF lost # {} THEN V(Tag(e, ".range"), ln, [stmt |-> <<e.t, e.pred>>, rs |-> e.rs, lost |-> CHOOSE r \in lost : TRUE])
+       ELSE IF ~e.rs.sel /\ extra # {} THEN V(Tag(e, ".range"), ln, [stmt |-> <<e.t, e.pred>>, rs |-> e.rs, extra |-> CHOOSE r \in extra : TRUE])
+       ELSE <<>>
+
 IdxPointCheck(e, ln) ==
   IF e.res # "ok" THEN <<>>
   ELSE IF BadValue(e.rows) THEN V(Tag(e, ".value"), ln, <<e.ev, e.t>>)
@@ -93,12 +112,12 @@ TNext ==
                              /\ viol' = AddViol(viol, FailCheck(e, l) \o PinCheck(e, l))
        [] e.ev = "Update" -> /\ UNCHANGED hvars
                              /\ (IF HasTable(e.t) /\ Ok(e) THEN Update(e.t, e.pred, e.set) ELSE Stutter)
-                             /\ viol' = AddViol(viol, FailCheck(e, l) \o PinCheck(e, l))
+                             /\ viol' = AddViol(viol, FailCheck(e, l) \o RangePlanCheck(e, l) \o PinCheck(e, l))
        [] e.ev = "Delete" -> /\ UNCHANGED hvars
                              /\ (IF HasTable(e.t) /\ Ok(e) THEN Delete(e.t, e.pred) ELSE Stutter)
-                             /\ viol' = AddViol(viol, FailCheck(e, l) \o PinCheck(e, l))
+                             /\ viol' = AddViol(viol, FailCheck(e, l) \o RangePlanCheck(e, l) \o PinCheck(e, l))
        [] e.ev = "Select" -> /\ UNCHANGED hvars
-                             /\ viol' = AddViol(viol, FailCheck(e, l) \o SelectCheck(e, l) \o PinCheck(e, l))
+                             /\ viol' = AddViol(viol, FailCheck(e, l) \o SelectCheck(e, l) \o RangePlanCheck(e, l) \o PinCheck(e, l))
                              /\ IF Has(e, "sync") /\ Ok(e) /\ ~BadValue(e.rows) /\ ~SameBag(e.rows, tables[e.t].rows)
                                   THEN tables' = Put(e.t, [tables[e.t] EXCEPT !.rows = e.rows]) /\ UNCHANGED <<snap, intxn>>
                                   ELSE Stutter
